@@ -543,4 +543,27 @@ def ordering_key_obligations(chk, ir, native):
         prev = (a, b)
     chk.functions |= sess.functions_called
     chk.ob('edge ordering key/integer encoding agrees with the real edge::hash, operator< and operator== on %d id pairs (irsym execution of the IR and native run)' % n, 'proved' if bad == 0 else 'violated', True, time.time() - t0)
-    if bad: chk.fail_closed.append('integer encoding of edge::hash disagrees with the IR on %d pairs' % bad)
+    if bad:
+        # the real key is not the one proved injective: look for two different edges that the real std::set<edge> cannot tell apart
+        # (native edge::hash on random id pairs below 2^17, birthday search), which is the property-level failure
+        seen_keys = {}
+        found = None
+        rs = random.Random(11)
+        for _ in range(150000):
+            a = rs.randrange(1 << 17); b = rs.randrange(1 << 17)
+            if a == b: continue
+            lo, hi = min(a, b), max(a, b)
+            q = native.call('h_edge_key', [], [lo, hi, 3, 7])
+            if q.get('status') != 0 or not q['i']: break
+            k = q['i'][0]
+            other = seen_keys.get(k)
+            if other is not None and other != (lo, hi):
+                found = (other, (lo, hi), k); break
+            seen_keys[k] = (lo, hi)
+        if found:
+            (e1, e2, k) = found
+            q2 = native.call('h_edge_key', [], [e1[0], e1[1], e2[0], e2[1]])
+            chk.violation('C01/edge-key-collision', 'edges %r and %r have the same ordering key %d in the real edge::hash (operator< says %r, operator== says %r): std::set<edge> treats them as one edge' % (e1, e2, k, q2['i'][1:2], q2['i'][2:3]),
+                          {'edges': [e1, e2], 'key': k, 'native h_edge_key': q2['i'], 'how': 'harness h_edge_key (/verif/harness/h_refine.cpp), native build'})
+        else:
+            chk.fail_closed.append('integer encoding of edge::hash disagrees with the IR on %d pairs (no colliding pair found below 2^17)' % bad)
